@@ -75,7 +75,11 @@ def qn_closures(facts, clo):
     """nested closures that return <their argument>.get_qualified_name()"""
     from closures import run_closure
     ok = set()
-    for c in facts.closures_of(clo):
+    # closures of the per-file closure and of the private helpers of validation (a chain extracted into a helper is still the chain)
+    cands = list(facts.closures_of(clo)) + [p for p in sorted(facts.fns) if p.startswith("validation::") and "{closure" in p and not p.startswith("validation::validate::")]
+    for c in cands:
+        if (facts.fns[c].get("captures") or []):
+            continue
         try:
             cp, _ = run_closure(facts, c, {}, [sym_ref("i")], opaque_fns=["ast::Import::get_qualified_name"], pure_fns=["ast::Import::get_qualified_name"])
         except Exception:
